@@ -48,8 +48,8 @@ theorem source_tie : Generated.C15.sourceHashes = Expected.C15.sourceHashes := b
     proofs use -/
 theorem dep_tie : Generated.C15.depFacts = Expected.C15.depFacts := by decide
 
-/-- tie: the statements of `gta`, `gtaRetry` and `ast` those facts are read from, and
-    `splitVarSpecs`, are textually the ones the model was written from -/
+/-- tie: the statements of `gta`, `gtaRetry` and `ast` those facts are read from, `splitVarSpecs`,
+    `compDefineX` and `matchSelectorMethod` are textually the ones the model was written from -/
 theorem dep_source_tie : Generated.C15.depHashes = Expected.C15.depHashes := by decide
 
 /-! ### the ordering loop of genGlobalVarDecl (for every dependency graph) -/
@@ -503,7 +503,7 @@ theorem classifySrc_in_domain_iff (s : SrcPkg) : classifySrc s = "in-domain" ↔
 def srcLookalikes : SrcPkg :=
   { files := [[.type "rv" ["n"], .type "rf" ["init"],
                .func { name := "init", recv := .value, recvType := "rv", label := "rv_init" },
-               .var ⟨["a"], [⟨"a", [⟨"b", true⟩]⟩], false, false⟩,
+               .var ⟨["a"], [⟨"a", [⟨"b", true, false⟩]⟩], false, false⟩,
                .func { name := "init", label := "init0" },
                .func { name := "Init", label := "Init" }],
               [.func { name := "init", recv := .pointer, recvType := "rp", label := "rp_init" },
@@ -601,8 +601,8 @@ theorem package_order_witness :
   `facts` / `deps`: the facts of the repaired code; `depsBefore`: the decisions as the code made them
   before round 3 (what the extractor reads from the parent of a9bfd4c). -/
 
-private def v1 (n : String) (ids : List String) : VarSpec := ⟨[n], [⟨n, ⟨"lg", true⟩ :: ids.map (⟨·, true⟩)⟩], false, false⟩
-private def helpers : List Func := [⟨"lg", [], false⟩, ⟨"two", [⟨"lg", true⟩], false⟩]
+private def v1 (n : String) (ids : List String) : VarSpec := ⟨[n], [⟨n, ⟨"lg", true, false⟩ :: ids.map (⟨·, true, false⟩)⟩], false, false⟩
+private def helpers : List Func := [⟨"lg", [], false⟩, ⟨"two", [⟨"lg", true, false⟩], false⟩]
 private def facts := Expected.C15.execFacts
 private def deps := Expected.C15.depFacts
 private def depsBefore := Expected.C15.depFactsBefore
@@ -612,7 +612,7 @@ private def depsBefore := Expected.C15.depFactsBefore
     is the earliest ready variable; the toolchain keeps a node per variable: after `a`, `y` still
     waits for `b` and `x` goes first. -/
 def pkgOneNode : Pkg :=
-  ⟨[v1 "y" ["b"], v1 "x" ["a"], ⟨["a", "b"], [⟨"a", [⟨"two", true⟩]⟩], false, false⟩], helpers, [], some "main"⟩
+  ⟨[v1 "y" ["b"], v1 "x" ["a"], ⟨["a", "b"], [⟨"a", [⟨"two", true, false⟩]⟩], false, false⟩], helpers, [], some "main"⟩
 theorem one_node_witness :
     classify pkgOneNode = "several-names-one-node" ∧
     runY facts deps pkgOneNode = ⟨["a", "y", "x", "main"], false⟩ ∧
@@ -635,7 +635,7 @@ theorem one_node_novalue_witness :
     code before the repair (`operandRetry := false`) it panicked and nothing ran -/
 def pkgCommaOk (late : Bool) : Pkg :=
   ⟨(if late then id else List.reverse)
-     [⟨["v", "ok"], [⟨"v", [⟨"mp", true⟩, ⟨"lg", true⟩]⟩], false, late⟩, v1 "mp" []], helpers, [], some "main"⟩
+     [⟨["v", "ok"], [⟨"v", [⟨"mp", true, false⟩, ⟨"lg", true, false⟩]⟩], false, late⟩, v1 "mp" []], helpers, [], some "main"⟩
 example :
     classify (pkgCommaOk true) = "in-domain" ∧
     runY facts deps (pkgCommaOk true) = ⟨["mp", "v", "main"], false⟩ ∧
@@ -655,7 +655,7 @@ theorem toolchain_statement_fails : ¬ ∀ p : Pkg, runY facts deps p = runGo p 
 
 /-- F14 (fixed by 17bcf0b): `var a = lg("a", f()); var b = lg("b"); func f() int { return b + 1 }`.
     Now `a` waits for `b`; with the decisions of the code before the repair the model gives the old log. -/
-def pkgThroughFunc : Pkg := ⟨[v1 "a" ["f"], v1 "b" []], helpers ++ [⟨"f", [⟨"b", true⟩], false⟩], [], some "main"⟩
+def pkgThroughFunc : Pkg := ⟨[v1 "a" ["f"], v1 "b" []], helpers ++ [⟨"f", [⟨"b", true, false⟩], false⟩], [], some "main"⟩
 example :
     classify pkgThroughFunc = "in-domain" ∧
     runY facts deps pkgThroughFunc = ⟨["b", "a", "main"], false⟩ ∧ runGo pkgThroughFunc = ⟨["b", "a", "main"], false⟩ ∧
@@ -667,7 +667,7 @@ example :
     `func f() int { return g() }; func g() int { return b + f() }` -/
 example :
     let p : Pkg := ⟨[v1 "a" ["T.m", "t"], v1 "t" [], v1 "b" []],
-      helpers ++ [⟨"T.m", [⟨"f", true⟩], true⟩, ⟨"f", [⟨"g", true⟩], false⟩, ⟨"g", [⟨"b", true⟩, ⟨"f", true⟩], false⟩],
+      helpers ++ [⟨"T.m", [⟨"f", true, false⟩], true⟩, ⟨"f", [⟨"g", true, false⟩], false⟩, ⟨"g", [⟨"b", true, false⟩, ⟨"f", true, false⟩], false⟩],
       [], some "main"⟩
     collectDepsY deps p = [[2, 1], [], []] ∧ goStepDeps p = [[1, 2], [], []] ∧
     runY facts deps p = ⟨["t", "b", "a", "main"], false⟩ ∧ runGo p = ⟨["t", "b", "a", "main"], false⟩ ∧
@@ -685,7 +685,7 @@ example :
 /-- F15-1 (fixed by 2be263c): `var c = lg("c", p); var p, q = two("p", d); var d = lg("d")` — the
     variables of a multi-value declaration are dependencies now -/
 def pkgMulti : Pkg :=
-  ⟨[v1 "c" ["p"], ⟨["p", "q"], [⟨"p", [⟨"two", true⟩, ⟨"d", true⟩]⟩], false, false⟩, v1 "d" []], helpers, [], some "main"⟩
+  ⟨[v1 "c" ["p"], ⟨["p", "q"], [⟨"p", [⟨"two", true, false⟩, ⟨"d", true, false⟩]⟩], false, false⟩, v1 "d" []], helpers, [], some "main"⟩
 example :
     classify pkgMulti = "in-domain" ∧
     runY facts deps pkgMulti = ⟨["d", "p", "c", "main"], false⟩ ∧ runGo pkgMulti = ⟨["d", "p", "c", "main"], false⟩ ∧
@@ -697,8 +697,8 @@ example :
     the variables of a multi-value declaration (the wrong value they used to read is outside the
     model; what the model states is that `d` now waits for the declaration through `g` and `f` too) -/
 def pkgMultiInFunc : Pkg :=
-  ⟨[⟨["p", "q"], [⟨"p", [⟨"two", true⟩]⟩], false, false⟩, v1 "d" ["g", "p"]],
-   helpers ++ [⟨"f", [⟨"q", true⟩], false⟩, ⟨"g", [⟨"p", true⟩, ⟨"f", true⟩], false⟩], [], some "main"⟩
+  ⟨[⟨["p", "q"], [⟨"p", [⟨"two", true, false⟩]⟩], false, false⟩, v1 "d" ["g", "p"]],
+   helpers ++ [⟨"f", [⟨"q", true, false⟩], false⟩, ⟨"g", [⟨"p", true, false⟩, ⟨"f", true, false⟩], false⟩], [], some "main"⟩
 example :
     classify pkgMultiInFunc = "in-domain" ∧ collectDepsY deps pkgMultiInFunc = [[], [0, 0, 0]] ∧
     runY facts deps pkgMultiInFunc = ⟨["p", "d", "main"], false⟩ ∧ runGo pkgMultiInFunc = ⟨["p", "d", "main"], false⟩ ∧
@@ -708,7 +708,7 @@ example :
 /-- F15-3 (fixed by 14ebac5): `var p, q = lg("p", c), lg("q"); var c = lg("c", q)` — two steps now;
     as one node it was a false loop -/
 def pkgPaired : Pkg :=
-  ⟨[⟨["p", "q"], [⟨"p", [⟨"lg", true⟩, ⟨"c", true⟩]⟩, ⟨"q", [⟨"lg", true⟩]⟩], false, false⟩, v1 "c" ["q"]], helpers, [], some "main"⟩
+  ⟨[⟨["p", "q"], [⟨"p", [⟨"lg", true, false⟩, ⟨"c", true, false⟩]⟩, ⟨"q", [⟨"lg", true, false⟩]⟩], false, false⟩, v1 "c" ["q"]], helpers, [], some "main"⟩
 example :
     classify pkgPaired = "in-domain" ∧
     runY facts deps pkgPaired = ⟨["q", "c", "p", "main"], false⟩ ∧ runGo pkgPaired = ⟨["q", "c", "p", "main"], false⟩ ∧
@@ -718,7 +718,7 @@ example :
 /-- F15-4 (fixed by 004b9fa): `var a = lg("a", func() int { b := 7; return b }()); var b = lg("b", a)`
     — a local variable named like a package-level one is not a dependency; it was a false loop -/
 def pkgShadow : Pkg :=
-  ⟨[⟨["a"], [⟨"a", [⟨"lg", true⟩, ⟨"b", false⟩, ⟨"b", false⟩]⟩], false, false⟩, v1 "b" ["a"]], helpers, [], some "main"⟩
+  ⟨[⟨["a"], [⟨"a", [⟨"lg", true, false⟩, ⟨"b", false, false⟩, ⟨"b", false, false⟩]⟩], false, false⟩, v1 "b" ["a"]], helpers, [], some "main"⟩
 example :
     classify pkgShadow = "in-domain" ∧
     runY facts deps pkgShadow = ⟨["a", "b", "main"], false⟩ ∧ runGo pkgShadow = ⟨["a", "b", "main"], false⟩ ∧
@@ -728,7 +728,7 @@ example :
 /-- F15-5 (fixed by 004b9fa): `var _ = lg("x0"); var a = lg("a"); var _ = lg("x1", a)` — the blank
     identifier is not a dependency -/
 def pkgBlank : Pkg :=
-  ⟨[⟨["_"], [⟨"x0", [⟨"lg", true⟩]⟩], false, false⟩, v1 "a" [], ⟨["_"], [⟨"x1", [⟨"lg", true⟩, ⟨"a", true⟩]⟩], false, false⟩], helpers, [], some "main"⟩
+  ⟨[⟨["_"], [⟨"x0", [⟨"lg", true, false⟩]⟩], false, false⟩, v1 "a" [], ⟨["_"], [⟨"x1", [⟨"lg", true, false⟩, ⟨"a", true, false⟩]⟩], false, false⟩], helpers, [], some "main"⟩
 example :
     classify pkgBlank = "in-domain" ∧
     runY facts deps pkgBlank = ⟨["x0", "a", "x1", "main"], false⟩ ∧ runGo pkgBlank = ⟨["x0", "a", "x1", "main"], false⟩ ∧
@@ -742,13 +742,13 @@ example :
     classify pkgSelf = "in-domain" ∧
     runY facts deps pkgSelf = ⟨[], true⟩ ∧ runGo pkgSelf = ⟨[], true⟩ ∧
     runY facts depsBefore pkgSelf = ⟨["a", "main"], false⟩ ∧
-    runY facts deps ⟨[v1 "a" ["f"]], helpers ++ [⟨"f", [⟨"a", true⟩], false⟩], [], some "main"⟩ = ⟨[], true⟩ ∧
-    runY facts { deps with skipSelf := true } ⟨[v1 "a" ["f"]], helpers ++ [⟨"f", [⟨"a", true⟩], false⟩], [], some "main"⟩
+    runY facts deps ⟨[v1 "a" ["f"]], helpers ++ [⟨"f", [⟨"a", true, false⟩], false⟩], [], some "main"⟩ = ⟨[], true⟩ ∧
+    runY facts { deps with skipSelf := true } ⟨[v1 "a" ["f"]], helpers ++ [⟨"f", [⟨"a", true, false⟩], false⟩], [], some "main"⟩
       = ⟨["a", "main"], false⟩ := by
   decide
 
 /-- F15-7 (fixed by e843e3f): `var p, q = two("p")` with `two` declared later — `gta` comes back to it -/
-def pkgLate : Pkg := ⟨[⟨["p", "q"], [⟨"p", [⟨"two", true⟩]⟩], true, false⟩], helpers, [], some "main"⟩
+def pkgLate : Pkg := ⟨[⟨["p", "q"], [⟨"p", [⟨"two", true, false⟩]⟩], true, false⟩], helpers, [], some "main"⟩
 example :
     classify pkgLate = "in-domain" ∧
     runY facts deps pkgLate = ⟨["p", "main"], false⟩ ∧ runGo pkgLate = ⟨["p", "main"], false⟩ ∧
@@ -762,16 +762,32 @@ example :
     literal (`collectSkip := .funcLit`), `y` would run before `x`, and `var f = func() int { return g(f) }`
     would no longer be an initialization cycle. -/
 def pkgFuncValue : Pkg :=
-  ⟨[v1 "y" ["get"], ⟨["get"], [⟨"", [⟨"x", true⟩]⟩], false, false⟩, v1 "x" []], helpers, [], some "main"⟩
+  ⟨[v1 "y" ["get"], ⟨["get"], [⟨"", [⟨"x", true, false⟩]⟩], false, false⟩, v1 "x" []], helpers, [], some "main"⟩
 example :
     classify pkgFuncValue = "in-domain" ∧ collectDepsY deps pkgFuncValue = [[1], [2], []] ∧
     runY facts deps pkgFuncValue = ⟨["x", "y", "main"], false⟩ ∧ runGo pkgFuncValue = ⟨["x", "y", "main"], false⟩ ∧
     runY facts { deps with collectSkip := .funcLit } pkgFuncValue = ⟨["y", "x", "main"], false⟩ ∧
-    runY facts deps ⟨[⟨["f"], [⟨"", [⟨"g", true⟩, ⟨"f", true⟩]⟩], false, false⟩], helpers ++ [⟨"g", [], false⟩], [], some "main"⟩
+    runY facts deps ⟨[⟨["f"], [⟨"", [⟨"g", true, false⟩, ⟨"f", true, false⟩]⟩], false, false⟩], helpers ++ [⟨"g", [], false⟩], [], some "main"⟩
       = ⟨[], true⟩ ∧
     runY facts { deps with collectSkip := .funcLit }
-        ⟨[⟨["f"], [⟨"", [⟨"g", true⟩, ⟨"f", true⟩]⟩], false, false⟩], helpers ++ [⟨"g", [], false⟩], [], some "main"⟩
+        ⟨[⟨["f"], [⟨"", [⟨"g", true, false⟩, ⟨"f", true, false⟩]⟩], false, false⟩], helpers ++ [⟨"g", [], false⟩], [], some "main"⟩
       = ⟨["main"], false⟩ := by
+  decide
+
+/-- a method *expression* (seeded change C15-4): `var a = lg("a", T.m(t)); var t = T{…}; var b = lg("b")`,
+    `func (r T) m() int { return b }` — `matchSelectorMethod` tags the selector `T.m` with `aGetMethod`
+    like `t.m`, so `a` waits for `b`. Were only the method-with-receiver form tagged
+    (`methodTag := .recvOnly`), the method expression would contribute no reference and `a` would run
+    before `b`, while `t.m()` would still be followed. -/
+def pkgMethodExpr (viaExpr : Bool) : Pkg :=
+  ⟨[⟨["a"], [⟨"a", [⟨"lg", true, false⟩, ⟨"T.m", true, viaExpr⟩, ⟨"t", true, false⟩]⟩], false, false⟩, v1 "t" [], v1 "b" []],
+   helpers ++ [⟨"T.m", [⟨"b", true, false⟩], true⟩], [], some "main"⟩
+theorem method_expr_tag_witness :
+    runY facts deps (pkgMethodExpr true) = ⟨["t", "b", "a", "main"], false⟩ ∧
+    runGo (pkgMethodExpr true) = ⟨["t", "b", "a", "main"], false⟩ ∧
+    collectDepsY { deps with methodTag := .recvOnly } (pkgMethodExpr true) = [[1], [], []] ∧
+    runY facts { deps with methodTag := .recvOnly } (pkgMethodExpr true) = ⟨["t", "a", "b", "main"], false⟩ ∧
+    runY facts { deps with methodTag := .recvOnly } (pkgMethodExpr false) = ⟨["t", "b", "a", "main"], false⟩ := by
   decide
 
 /-! ### the statements are not vacuous -/
@@ -781,7 +797,7 @@ example :
     is *not* initialised in declaration order -/
 def pkgDiamond : Pkg :=
   ⟨[v1 "a" ["b", "c"], v1 "b" ["d"], v1 "c" ["f"], v1 "d" []],
-   helpers ++ [⟨"f", [⟨"d", true⟩, ⟨"g", true⟩], false⟩, ⟨"g", [], false⟩], ["init0"], some "main"⟩
+   helpers ++ [⟨"f", [⟨"d", true, false⟩, ⟨"g", true, false⟩], false⟩, ⟨"g", [], false⟩], ["init0"], some "main"⟩
 example : dom pkgDiamond = true ∧ collectDepsY deps pkgDiamond = [[1, 2], [3], [3], []] ∧
     runY facts deps pkgDiamond = ⟨["d", "b", "c", "a", "init0", "main"], false⟩ := by decide
 
